@@ -11,7 +11,7 @@ From Coq Require Import ZArith List.
 From V Require Import Base.Res Sched.LedgerModel Sched.StmtModel Sched.GangModel Sched.CycleModel
                       Sched.LedgerInvP Sched.LedgerCodec Sched.CycleCodec
                       Sched.QueueLemmasBase Sched.QueueLemmasReach Sched.QueueLemmas Sched.QueueLemmasEx
-                      C03.CapacityModel C03.CapacityLemmas C03.ReclaimLaw C03.AliasModel.
+                      C03.CapacityModel C03.CapacityLemmas C03.ReclaimLaw C03.AliasModel C03.ReclaimModel.
 From V Require C03.EnqueueLaw.
 Import ListNotations.
 Open Scope Z_scope.
@@ -329,3 +329,29 @@ Theorem C03_counted_unlisted : forall (phase : Z) (j : EnqueueLaw.ejob) (d : nat
   EnqueueLaw.min_at j d = None -> 0 <= nth d (EnqueueLaw.ej_alloc j) 0 -> EnqueueLaw.counted phase j d = 0.
 Proof. exact EnqueueLaw.counted_unlisted. Qed.
 Print Assumptions C03_counted_unlisted.
+
+(* ---- the placement decision of the reclaim action (no reclaim action skeleton exists in
+   CycleModel.v; this is the decision reclaim.go takes after /repo bd1440f) ---- *)
+
+(* evictions or not: a reclaim placement is preceded by the Allocatable vote on the records as they
+   are after the tentative evictions, hence the bound for the queue and every ancestor *)
+Theorem C03_reclaim_placement_bound : forall hier ready qs_after reserved q req fits_node,
+  reclaim_pipelines hier ready qs_after reserved q req fits_node = true ->
+  exists r, qs_after !! q = Some r /\ qr_open r = true /\ ready = true /\
+    (hier = true -> qr_children r = 0%nat) /\
+    forall a, a = q \/ a ∈ qr_ancestors r ->
+      exists ra c, qs_after !! a = Some ra /\ qr_realcap ra = Some c /\
+        forall d, requested req d ->
+          amt (qr_alloc ra) d + amt (reserved a) d + amt req d <= amt c d.
+Proof. exact reclaim_placement_bound. Qed.
+Print Assumptions C03_reclaim_placement_bound.
+
+(* repeating the vote only after an eviction is not enough with hierarchical queues *)
+Theorem C03_reclaim_skip_vote_refuted :
+  exists eps qs q req ra c,
+    cap_preemptive eps true qs q [req] = true /\
+    reclaim_pipelines_skip false true true qs (fun _ => empty_res) q req true = true /\
+    qs !! 2%positive = Some ra /\ 2%positive ∈ qr_ancestors (default ra (qs !! q)) /\
+    qr_realcap ra = Some c /\ amt c DCpu < amt (qr_alloc ra) DCpu + amt req DCpu.
+Proof. exact reclaim_skip_vote_refuted. Qed.
+Print Assumptions C03_reclaim_skip_vote_refuted.
